@@ -244,6 +244,8 @@ func checkExecution(rep *kit.Report, sc schedScenario, ex *execution, choices []
 }
 
 // exploreSchedules is the iterative preemption-bounded DFS.
+var gateRuns int64
+
 func exploreSchedules(rep *kit.Report, env kit.Env, sc schedScenario, bound int, shardBase int) (execs, points int64, outcomes map[string]bool, capped bool) {
 	outcomes = map[string]bool{}
 	var rec func(prefix []int, depth int)
@@ -260,7 +262,25 @@ func exploreSchedules(rep *kit.Report, env kit.Env, sc schedScenario, bound int,
 			rep.Violate(sc.name+"/harness-divergence", "replay of a schedule prefix diverged: "+ex.res.Diverged, prefix)
 			return
 		}
-		outcomes[checkExecution(rep, sc, ex, prefix)] = true
+		sig := checkExecution(rep, sc, ex, prefix)
+		outcomes[sig] = true
+		// determinism gate: the same decision prefix must reproduce the same
+		// observations (checked on 1 in 64 executions and on the first ones).
+		if execs <= 3 || execs%64 == 0 {
+			ex2 := runSchedule(sc, prefix)
+			sig2 := ""
+			for _, f := range ex2.frames {
+				if f.err != nil {
+					sig2 += fmt.Sprintf("t%d%s:err ", f.thread, f.kind)
+				} else {
+					sig2 += fmt.Sprintf("t%d%s:%d ", f.thread, f.kind, f.seq)
+				}
+			}
+			if strings.TrimSpace(sig2) != sig || len(ex2.res.Points) != len(ex.res.Points) {
+				rep.Violate(sc.name+"/harness-nondeterminism", fmt.Sprintf("replaying schedule %v gave different observations (%q vs %q): uncontrolled nondeterminism in the harness", prefix, sig, strings.TrimSpace(sig2)), prefix)
+			}
+			gateRuns++
+		}
 		if execs%20000 == 1 {
 			rep.Sample(map[string]any{"scenario": sc.name, "choices": append([]int(nil), prefix...), "decision_points": len(ex.res.Points)})
 		}
@@ -341,4 +361,5 @@ func runSchedTier(t *testing.T, rep *kit.Report, env kit.Env) {
 		}
 		rep.Outcome(fmt.Sprintf("%s: %d distinct sequence-number assignments", sc.name, len(outcomes)))
 	}
+	rep.Bounds["determinism_gate_double_runs"] = gateRuns
 }
